@@ -23,6 +23,7 @@ func init() {
 	ruleText["R10.1"] = "in every function that calls (*Interpreter).run (Execute, importSrc), interp.frame.setrunid(interp.runid()) dominates every such call"
 	ruleText["R10.3"] = "every reflect.Select in a run-time closure has a case loaded, at execution time, from frame.done of the frame it runs in (never a cancellation case cached in per-statement state by an earlier evaluation)"
 	ruleText["R10.4"] = "the exported context-taking entry points write the same set of Interpreter fields (directly or through unexported helpers) before starting the evaluation goroutine: the cancellation state is renewed identically by all of them"
+	ruleText["R10.5"] = "same analysis as C08/R08.3: every Lock/RLock of a mutex is released on every control-flow path to a function exit; an entry point that gives up early (expired context) with the interpreter's mutex held blocks every later evaluation"
 	ruleText["R10.2"] = "in a function literal passed to reflect.MakeFunc, the id passed to newFrame is not the runid() of a frame captured at creation time (a free variable): such an id is frozen while stop() advances the interpreter's id forever"
 }
 
@@ -91,7 +92,14 @@ func runC10(c *Config, r *Report) {
 	// R10.3: blocking operations use the done case of the frame they run in.
 	c10R3(ic, r)
 	watcherPreparation(ic, r, "R10.4")
-	// R10.2
+	// R10.5: no path leaves a mutex locked (an entry point returning early on an expired context
+	// with interp.mutex held blocks every later evaluation): the analysis of C08/R08.3
+	lockPairing(ic, r, "R10.5")
+	c10R2(ic, r, "R10.2")
+}
+
+// c10R2: see ruleText["R10.2"]; shared with C07.
+func c10R2(ic *IC, r *Report, rule string) {
 	g := buildSGraph(ic.SP)
 	newFrame := ic.ssaFunc("newFrame")
 	if newFrame == nil {
@@ -126,7 +134,7 @@ func runC10(c *Config, r *Report) {
 							for _, ro := range origins(x.Call.Args[0], map[ssa.Value]bool{}) {
 								if isCaptured(ro) {
 									bad = true
-									r.Fail("R10.2", base+":runid-of-captured-frame:"+capturedName(ro), ic.pos(call.Pos()),
+									r.Fail(rule, base+":runid-of-captured-frame:"+capturedName(ro), ic.pos(call.Pos()),
 										"the callback created by "+ssaFuncName(root)+" passes to newFrame the run id of "+describeValue(ro)+", a frame captured when the callback was created: after any later cancellation (stop advances the interpreter id) the function runs no statement and returns zero values")
 								}
 							}
@@ -134,13 +142,13 @@ func runC10(c *Config, r *Report) {
 					default:
 						if isCaptured(o) {
 							bad = true
-							r.Fail("R10.2", base+":captured-id-value:"+capturedName(o), ic.pos(call.Pos()),
+							r.Fail(rule, base+":captured-id-value:"+capturedName(o), ic.pos(call.Pos()),
 								"the callback created by "+ssaFuncName(root)+" passes to newFrame an id read from "+describeValue(o)+", a value fixed when the callback was created: it is never refreshed, so after the first cancellation the function is dead for good, even after later successful evaluations")
 						}
 					}
 				}
 				if !bad {
-					r.Pass("R10.2", base, ic.pos(call.Pos()), "the callback gates on a run id read when it is entered")
+					r.Pass(rule, base, ic.pos(call.Pos()), "the callback gates on a run id read when it is entered")
 				}
 			}
 		}
